@@ -1342,6 +1342,7 @@ fn bare_sheet(state: u8, removed: bool) -> AnnotSheet {
         header: None,
         footer: None,
         protection: None,
+        table: None,
     }
 }
 
